@@ -115,7 +115,9 @@ fn judge(c: &TdCase, cls: &mut Classifier) -> Verdict {
         return fail("conforming model", "reference cannot hash the model", "harness: generated model does not conform to its own types");
     };
     let docs = crate::engine::truncate(&c.doc, 900);
-    let got = catch(|| serde_json::from_str::<TypedData>(&c.doc).map(|t| (t.domain_separator().0, t.message_hash().0, t.signing_message().0)).map_err(|e| e.to_string()));
+    let got = crate::isolate::inflight("typeddata", c.doc.as_bytes(), "generated", || {
+        catch(|| serde_json::from_str::<TypedData>(&c.doc).map(|t| (t.domain_separator().0, t.message_hash().0, t.signing_message().0)).map_err(|e| e.to_string()))
+    });
     let (gds, gmh, gdig) = match got {
         Ok(Ok(v)) => v,
         Ok(Err(e)) => {
@@ -174,11 +176,13 @@ fn judge_type_string(c: &TypeString, cls: &mut Classifier) -> Verdict {
             // an atom followed by array suffixes must not be taken for a struct reference
             let base = c.s.split('[').next().unwrap_or("");
             let is_atom = td::all_atoms().iter().any(|a| a.name() == base);
-            if is_atom && debug.contains("Struct(") {
+            let canonical = c.s.split('[').skip(1).all(|p| p == "]" || (p.ends_with(']') && p[..p.len() - 1].parse::<u64>().map(|n| n.to_string() == p[..p.len() - 1]).unwrap_or(false)));
+            if is_atom && canonical && debug.contains("Struct(") {
                 return fail("atomic or array of atomic", debug, format!("type string {:?} was taken for a struct reference", c.s));
             }
             let dims = c.s.matches('[').count();
-            if debug.matches("Array(").count() != dims {
+            let canonical_suffixes = c.s.split('[').skip(1).all(|p| p == "]" || (p.ends_with(']') && p[..p.len() - 1].parse::<u64>().map(|n| n.to_string() == p[..p.len() - 1]).unwrap_or(false)));
+            if canonical_suffixes && debug.matches("Array(").count() != dims {
                 return fail(format!("{dims} array levels"), debug, format!("array structure of type string {:?}", c.s));
             }
         }
@@ -219,6 +223,15 @@ pub fn run(ctx: &mut Ctx) {
         for l in &lists[..6] {
             strings.push(TypeString { s: format!("{name}{l}") });
         }
+    }
+    // non-canonical spellings of sizes must NOT be taken for the canonical type (they are struct names at
+    // best): the parse/print image must still be the identity
+    for s in [
+        "uint0256", "uint08", "int0256", "int008", "bytes032", "bytes01", "bytes00032", "uint+8", "uint 8", "uint8 ", "uint256[02]", "uint256[+2]", "uint256[ 2]",
+        "uint256[2 ]", "bool[00]", "Foo[01]", "Foo[+1]", "bytes32[0x2]", "uint", "int", "byte", "uint256[-1]", "uint256[1][02]", "uint0", "uint00",
+        "bytes0", "bytes33", "uint264", "uint7", "int12", "UINT256", "Bytes32", "String", "address[+0]",
+    ] {
+        strings.push(TypeString { s: s.to_string() });
     }
     ctx.run_cases("type-strings", &strings, judge_type_string);
     ctx.exhaustive_parts.push("member type grammar: 100 atoms x all suffix lists of length <= 3 over 5 suffixes".into());
